@@ -241,6 +241,36 @@ def run_shard(ctx):
         for _k in range(3):
             apply_ops(ctx, gd, rng.sample(gd["nodes"], rng.randint(1, 4)), True, ops=big_ops)
     ctx.extras["graphs_with_more_than_32_directed_edges"] = nbig
+    # 2d. very large sparse graphs (64..160 nodes), small and large selections: thresholds on node or edge counts
+    huge_ops = set(SET_OPS) | {"districts", "get_nodes_in_directed_paths"}
+    nhuge = 0
+    for _ in range(ctx.share({"quick": 48, "thorough": 1000}[ctx.tier])):
+        n = rng.choice([64, 65, 80, 100, 128, 129, 160])
+        nm = [f"N{i:03d}" for i in range(n)]
+        order = nm[:]
+        rng.shuffle(order)
+        k_di, k_bi = rng.randint(n, 3 * n), rng.randint(n // 4, n)
+        di, bi = set(), set()
+        while len(di) < k_di:
+            i, j = sorted(rng.sample(range(n), 2))
+            di.add((order[i], order[j]))
+        while len(bi) < k_bi:
+            a, b = rng.sample(nm, 2)
+            if (b, a) not in bi:
+                bi.add((a, b))
+        gd = {"nodes": nm if rng.random() < 0.5 else order, "di": [list(e) for e in sorted(di)],
+              "bi": [list(e) for e in sorted(bi)], "hostile": "huge-sparse"}
+        nhuge += 1
+        for size in (rng.randint(1, 4), rng.randint(5, n // 4), rng.randint(n // 2, n - 1)):
+            S = rng.sample(nm, size)
+            if rng.random() < 0.5:
+                # a selection that is connected (a node with its neighbours), so that edges lie inside it
+                seed_ = rng.choice(nm)
+                nb = [v for u, v in di if u == seed_] + [u for u, v in di if v == seed_] + \
+                     [v for u, v in bi if u == seed_] + [u for u, v in bi if v == seed_]
+                S = list(dict.fromkeys([seed_] + nb + S))[: max(2, size)]
+            apply_ops(ctx, gd, S, True, ops=huge_ops)
+    ctx.extras["huge_sparse_graphs"] = nhuge
     # 3. histories
     for _ in range(ctx.share({"quick": 240, "thorough": 3000}[ctx.tier])):
         gd = gg.random_admg(rng, rng.randint(3, 7))
